@@ -51,11 +51,11 @@ def _premise_args_fresh_ranges(ctx, f):
 
 REASONED = {
     ('formulas/cell.py::RangesAssembler.__call__', 'self'): (
-        ('ists[n]',), None,
+        ('_[_]',), None,
         'memoises index tuples derived only from the immutable range geometry '
         '(idempotent: `ists[n] = _get_indices_intersection(base, v)`)'),
     ('formulas/cell.py::InvRangesAssembler.__call__', 'dsp'): (
-        ('sol[name]',), None,
+        ('_[_]',), None,
         'writes the *current* solution only (dsp.solution), which every '
         'dispatch rebuilds'),
     ('formulas/ranges.py::Ranges.value', 'self'): (
@@ -63,15 +63,28 @@ REASONED = {
         'memoises the computed value in self._value; C07.cache checks every '
         'writer of ranges/values resets it'),
     ('formulas/cell.py::Cell._args', 'args'): (
-        ('inputs[k].values',), _premise_args_fresh_ranges,
+        ('_[_].values',), _premise_args_fresh_ranges,
         'alias through `inputs[k] = v` (reference inputs) followed by '
         '`inputs[k].values.update` is infeasible: a key bound to a reference '
         'appears in exactly one link'),
     ('formulas/cell.py::Cell._args', 'self'): (
-        ('inputs[k].values',), _premise_args_fresh_ranges,
+        ('_[_].values',), _premise_args_fresh_ranges,
         'the `Ranges(r.ranges) or r` idiom: the fresh Ranges has its own '
         'values dict; the `or r` branch (value-less reference) has no .values'),
 }
+
+
+def _shape_text(f, text):
+    """Expression text with local (non-parameter) names replaced by `_`."""
+    try:
+        e = ast.parse(text, mode='eval')
+    except SyntaxError:
+        return text
+    keep = set(f.all_params)
+    for n in ast.walk(e):
+        if isinstance(n, ast.Name) and n.id not in keep:
+            n.id = '_'
+    return ast.unparse(e)
 
 
 def entry_functions(ctx):
@@ -155,14 +168,14 @@ def rule_nomut(ctx):
             if (f.fq, prm) in REASONED:
                 targets, premise, why = REASONED[(f.fq, prm)]
                 ws = [x for x in s.writes if prm in x.params]
-                if all(x.target in targets and x.fi is f for x in ws) and (
-                        premise is None or premise(ctx, f)):
+                if all(_shape_text(f, x.target) in targets and x.fi is f
+                       for x in ws) and (premise is None or premise(ctx, f)):
                     rr.ok('%s writes `%s` through `%s`: reasoned exception '
                           '(%s)' % (f.qualname, w.target, prm, why),
                           '%s:%s' % (w.fi.module.rel, w.lineno))
                     continue
-                w = [x for x in ws if x.target not in targets or
-                     x.fi is not f][:1] or [w]
+                w = [x for x in ws if _shape_text(f, x.target) not in targets
+                     or x.fi is not f][:1] or [w]
                 w = w[0]
             bad.append((prm, w))
         if s.mutates:
